@@ -70,6 +70,25 @@ def stratified(rng, hists, budget):
     return out, len(groups)
 
 
+def phantom_stage(h):
+    """0: nothing; 1: a two-field point was rejected (its first field was created, its second conflicts); 2: ... and a crash
+    followed; 3: ... and after the crash a single-field point was rejected"""
+    batch = {}
+    stage = 0
+    for s in h:
+        if s['a'] == 'begin':
+            batch[s['w']] = s['batch']
+        elif s['a'] == 'ack':
+            two = len(batch[s['w']][0]['fs']) == 2
+            if stage == 0 and two and s['dropped'] == 1:
+                stage = 1
+            elif stage == 2 and s['dropped'] >= 1 and not two:
+                stage = 3
+        elif s['a'] == 'crash' and stage == 1:
+            stage = 2
+    return stage
+
+
 def soften(results):
     """a case the watchdog gave up on is an infrastructure problem (exit 2), never a violation"""
     for r in results:
@@ -111,6 +130,8 @@ def run(ctx):
     # 2. leads on the model of the code as it is (a model-only violation is a lead; the replay below decides)
     for cfg in lead_cfgs:
         ths.append(job(cfg, (lambda c: lambda: ctx.tlc('FieldSet', c, workers=min(4, vlib.NCPU), timeout=2400, heap='4g', tag=c.split('.')[1], count=False))(cfg)))
+    # 3c. directed: a field created in memory by a point that is then rejected (it is saved with the batch), crash, conflicting write
+    ths.append(job('phantom', lambda: ctx.tlc('FieldSet', 'FieldSet.GenPhantom.cfg', workers=min(4, vlib.NCPU), timeout=2400, dump=True, heap='3g', tag='phantom', count=False)))
     if not quick:
         # 3a. every history of the code-as-it-is model up to the bound
         ths.append(job('gen', lambda: ctx.tlc('FieldSet', 'FieldSet.Gen1_thorough.cfg', workers=min(4, vlib.NCPU), timeout=2400, dump=True, heap='6g', tag='gen', count=False)))
@@ -148,8 +169,18 @@ def run(ctx):
             raise vlib.Inconclusive('no terminal histories in the dump')
         chosen, nclasses = stratified(ctx.rng, hists, 9000)
         cases += [{'mode': 'hist', 'steps': h, 'boundaryImages': True} for h in chosen]
+    gp = out['phantom']
+    if gp.timed_out or not gp.ok:
+        raise vlib.Inconclusive('directed generation run failed: ' + gp.stdout[-800:])
+    ph = sorted(terminal_hists(gp.dump_path, cfg_maxops(ctx, 'FieldSet.GenPhantom.cfg')), key=lambda h: json.dumps(h, sort_keys=True))
+    ph3 = [h for h in ph if phantom_stage(h) == 3]
+    ph12 = [h for h in ph if phantom_stage(h) in (1, 2)]
+    if not ph3:
+        raise vlib.Inconclusive('vacuity guard: no history with rejected two-field point, crash, conflicting write')
+    fixed = ph3 + ph12[:(14 if quick else len(ph12))]      # never sampled
+    cases += [{'mode': 'hist', 'steps': h, 'boundaryImages': True} for h in fixed]
     nsimc = {}
-    for name, budget, images in (('sim1', 170 if quick else 2500, True), ('sim2', 110 if quick else 2500, False)):
+    for name, budget, images in (('sim1', 160 if quick else 2500, True), ('sim2', 110 if quick else 2500, False)):
         sim = out[name]
         if not sim.ok:
             raise vlib.Inconclusive(f'simulation run {name} failed: ' + sim.stdout[-800:])
@@ -184,19 +215,22 @@ def run(ctx):
     ctx.extra_cov['terminal_histories_replayed'] = len(chosen)
     ctx.extra_cov['history_classes'] = nclasses
     ctx.extra_cov['simulated_histories'] = nsimc
+    ctx.extra_cov['directed_phantom_field_histories'] = {'terminal': len(ph), 'reject_crash_conflict': len(ph3), 'replayed': len(fixed)}
     ctx.extra_cov['model_leads'] = leads
     ctx.extra_cov['model_leads_on_real_code'] = repro
     ctx.rule = ('histories of the code-as-it-is model: (thorough) every terminal history of FieldSet.Gen1 (all sequences of MaxOps '
                 'operations over write(16 single-point batches)/drop/close/crash with every crash position between micro-steps); '
                 'simulated histories with one writer (<= 5 operations) and two interleaved writers (<= 7 operations), sampled '
-                'evenly over classes (drop?, crash?, close?, rejected point?, number of writes); every micro-step is forced '
+                'evenly over classes (drop?, crash?, close?, rejected point?, number of writes); a fixed, never sampled set of '
+                'directed histories (two-field point rejected on its second field after creating its first, crash, conflicting '
+                'write); every micro-step is forced '
                 'through the schedule points; crash images at the crash points TLC chose, after every quiescent step '
                 '(one-writer histories) and at every byte prefix of an interrupted fields.idxl append; '
                 'non-trivial = history with a crash, a drop or a rejected point')
     ctx.assumptions += [
         'process-crash model: completed writes (O_SYNC appends, renames) are stable; an interrupted append persists as a byte prefix',
         'DropMeasurement runs while no write is in flight; a dropped measurement has data (otherwise the engine finds nothing to drop)',
-        'fields created in memory by a point that is later rejected are allowed but not required to be recorded',
+        'fields created in memory by a point that is then rejected are saved with the batch (as HEAD does) and must survive restarts',
     ]
 
 
